@@ -137,6 +137,30 @@ def unit_size(unit):
             eng.prove("size:no-unexpected-error", z3.BoolVal(False), detail=f"{text}: {type(e).__name__}: {e}")
             return "crash"
         eng.prove("size:pass1==pass2", z3.BoolVal(len(out) == size1), detail=f"{text}: pass one {size1} bytes, pass two {len(out)} bytes")
+        # O-value: the emitted bytes carry the symbol's value: decoding them (real decoder, same
+        # address) shows a number that is FOO under one of the operand widths, for every FOO
+        if unit.get("value", True):
+            from symx.containers import SymBuf
+            try:
+                ins = decode(SymBuf(list(out)), cur, OPCODES)
+                shown = TOK.asm_str(ins.render()) if ins is not None else None
+            except core.EngineSignal:
+                raise
+            except BaseException as e:  # noqa: BLE001
+                shown = None
+            if shown is not None:
+                import re as _re
+                terms = [eng.placeholders[p][0] for p in _re.findall(r"<sym#\d+:[^>]*>", shown) if p in eng.placeholders]
+                ok = False
+                for tm in terms:
+                    for m in (0xFF, 0xFFFF, 0xFFFFF, 0xFFFFFF):
+                        if not eng.feasible(T(tm) != (T(foo) & m)):
+                            ok = True
+                            break
+                    if ok:
+                        break
+                eng.prove("value:a-decoded-operand-is-the-symbol", z3.BoolVal(ok),
+                          detail=f"{text}: assembled with FOO symbolic, the bytes decode to '{shown}' in which no number equals FOO (masked to 8/16/20/24 bits) for every FOO")
         return f"encodes:{len(out)}"
 
     status, err = "ok", None
@@ -225,15 +249,25 @@ def gen_program(rng, nstmt):
     pending = list(labels)
     rng.shuffle(pending)
     section = "code"
-    org_used = False
+    org_used = 0
+    orgs_done = []
     for i in range(nstmt):
         r = rng.random()
         lab = ""
         if pending and (rng.random() < 0.4 or nstmt - i <= len(pending)):
             lab = pending.pop() + ": "
-        if r < 0.08 and not org_used:
-            org_used = True
-            lines.append(f".ORG 0x{rng.choice([0x100, 0x8000, 0x1FF00, 0x2FFF0, 0x30000]):X}")
+        if (r < 0.10 and org_used < 2) or (i == 0 and r < 0.25):
+            org_used += 1
+            if i > 0 and not orgs_done:
+                orgs_done.append(0)          # statements were placed from address 0 on
+            # an origin inside bytes that were already emitted is rejected by the image container:
+            # keep origins of one program well apart (a program is at most a few dozen bytes long)
+            pool = [x for x in (0x0, 0x10, 0x100, 0x8000, 0x1FF00, 0x2FFF0, 0x30000, 0x0) if all(abs(x - y) >= 0x400 for y in orgs_done)]
+            if not pool:
+                pool = [0x50000 + 0x1000 * org_used]
+            o = rng.choice(pool)
+            orgs_done.append(o)
+            lines.append(f".ORG 0x{o:X}")
             if lab:
                 lines.append(lab.strip())
             continue
